@@ -126,7 +126,8 @@ func deepCastAt(val Value, typ ast.Type, span errors.Span, allowCasts bool, path
 			return &val, nil
 		}
 	case ObjectValueKind:
-		if !allowCasts && typ.Kind() != ast.ObjectTypeKind {
+		// An object is always admitted where an any-object is expected (like in the VM).
+		if !allowCasts && typ.Kind() != ast.ObjectTypeKind && typ.Kind() != ast.AnyObjectTypeKind {
 			return nil, castErr(path, fmt.Sprintf("Incompatible values: a value of type '%s' is not compatible with a value of type '%s'", val.Kind(), typ), span)
 		}
 
